@@ -1,11 +1,6 @@
 #!/bin/sh
 # independent re-check of every compiled property file (and everything it depends on) with coqchk;
-# prints the axioms each relies on.  Slow (minutes, GBs): run on demand / in the thorough pass.
+# prints, per property, the axioms the checked context relies on.  Slow (minutes, GBs): on demand.
 cd "$(dirname "$0")/../coq" || exit 2
-rc=0
-for f in theories/Properties/C*.vo; do
-  m=$(basename "$f" .vo)
-  echo "== coqchk DvcData.Properties.$m"
-  timeout 3000 coqchk -silent -o -Q theories DvcData "DvcData.Properties.$m" 2>&1 | tail -25 || rc=1
-done
-exit $rc
+ls theories/Properties/C*.vo | xargs -n1 basename | sed 's/\.vo$//' | xargs -P 4 -I{} sh -c \
+  'timeout 3000 coqchk -silent -o -Q theories DvcData DvcData.Properties.{} > /tmp/coqchk_{}.log 2>&1; echo "== coqchk DvcData.Properties.{} rc=$?"; sed -n "/CONTEXT SUMMARY/,\$p" /tmp/coqchk_{}.log | grep -v "^ *$" | head -40; rm -f /tmp/coqchk_{}.log'
